@@ -100,3 +100,17 @@ Theorem C08_allnodes_builder_is_code : forall d p k fs m0,
   fwd_allnodes_loop d p k fs (d_nodes d).
 Proof. exact fwd_allnodes_builder_tie. Qed.
 Print Assumptions C08_allnodes_builder_is_code.
+
+(* tie to the source, stage 3d: the top-level flow of calculateAllNodes (calculator.cpp) - the call of reset(), the test that selects
+   the forward pass, the hand-over to the reverse pass (arrival time, re-seeded reverse labels), the arrival-time path
+   (departure time cleared, every trip usable), the result that is returned - and the NoRoutingReason each callee throws
+   are read from the sources AS THEY ARE NOW by tools/gen_loops.py (gen/Flow.v) and executed by the interpreter of Flow.v;
+   the model computes the same.  reset() enters as Proofs/ResetTie.v shows it to be *)
+Require Import TrV.Flow.
+From TrV Require Import Proofs.FlowTie.
+Theorem C08_calculate_allnodes_flow_is_code : forall d cs p rows m0,
+  run_allnodes GF.gen_calculate_allnodes
+    {| ce_d := d; ce_p := p; ce_reasons := GF.gen_flow_reasons; ce_reset := reset_allnodes d cs p rows; ce_egrfp := nil |} m0
+  = calc_allnodes d cs p rows.
+Proof. exact calculate_allnodes_tie. Qed.
+Print Assumptions C08_calculate_allnodes_flow_is_code.
